@@ -120,6 +120,7 @@ def abc(rep, prog):
         ev = Evaluator(prog, real_atoms={'n'}, facts=list(facts))
         ev.self_class = (m, cls)          # private helpers of the class are inlined; amplitude() / phase() stay symbolic
         ev.inline_self_methods = set(inline)
+        ev.real_methods = {'_amplitude_coefficient', '_phase_coefficient', 'amplitude', 'phase'}
         mem = prog.find_member(m, cls, name)
         return ev, ev.call_fn(mem[1], mem[0], [A('self'), A('n')], {}, {'__parent__': None}, 1), prog.site(mem[0], mem[1])
     specs = {
@@ -134,13 +135,17 @@ def abc(rep, prog):
         # amplitude()/phase() results are real numbers: declare the call atoms real so that exp(j x) expands on both sides alike
         sp = spec(ev, src, env, m)
         c = compare_terms(t, sp)
-        if c is not True and name in ('a', 'b', 'c'):
-            # the same comparison with amplitude() / phase() unfolded to the abstract coefficients: a definition that relies on their symmetry
-            # (one expression for both signs of n) is equal to the case-by-case form
-            ev2, t2, _ = meth(name, inline=('amplitude', 'phase'))
-            sp2 = spec(ev2, src, env, m)
-            c2 = compare_terms(t2, sp2)
-            if c2 is True: c = True
+        if c is not True:
+            # the same comparison case by case (n < 0, n >= 0), with amplitude() / phase() / c() unfolded to the abstract coefficients: a
+            # definition that relies on their symmetry (one expression for both signs of n, abs(n), conj(c(-n))) equals the case-by-case form
+            inl = ('amplitude', 'phase', 'c') if name in ('a', 'b', 'c') else ()
+            both = []
+            for fact in ('<0', '>=0'):
+                ev2, t2, _ = meth(name, facts=[(A('n'), fact)], inline=inl)
+                sp2 = spec(ev2, src, env, m)
+                both.append(compare_terms(t2, sp2))
+            if all(x is True for x in both): c = True
+            elif c is None and any(x is False for x in both): c = False
         rep.ob('R08.abc', name, c, f'{name}(n) = {t!r:.200}', site, lhs=t, rhs=sp)
 
 
